@@ -64,6 +64,10 @@ ASSUMPTIONS = [
   'the reply types (negative types and BAD_Rerr = 127)',
   'Tdiscarded frames taken from the socket: the reason text and the frame\'s own tag are chosen by the '
   'transport, only the discarded tag is an input (reason/tag clauses are evaluated in direct mode)',
+  'calls the Thrift serializer rejects (unknown keyword, wrong argument count, wrong type, text without UTF-8 form) '
+  'are not inputs: they are interleaved with good calls on the same serializer / client stack in all three modes, '
+  'nothing is supplied for them (a frame carrying one would match no supplied call) and the frames of later calls '
+  'are judged as always',
   'stream mode: one connection per trace; the tag of a Tdispatch/Tping is the transport\'s choice (C11), a frame '
   'is attributed to a supplied dispatch by its Thrift call (the script makes the calls pairwise distinct); '
   'whether/when a supplied message (dispatch or discard) is written at all, and the order among discards, is not '
@@ -82,7 +86,7 @@ RULE = {'C13': 'records generated from VERIF_SEED: message kind x tag class (byt
                'read-back; distinct by canonical record list.  Stream mode: seeded timelines in four families '
                '(calls while the connection opens; periodic ping due while a frame is stuck in the socket; deadline '
                'expiring while a frame is stuck or queued behind it; 2-4 calls with one deadline instant; calls on the '
-               'wire timing out while the writer is blocked; random mix with faults/close; large calls whose Tdispatch '
+               'wire timing out while the writer is blocked; random mix with faults/close; calls the Thrift serializer rejects between good calls; large calls whose Tdispatch '
                'body has exactly 1400..20000 (thorough: ..66000) bytes, straddling 16384 and 65536, meeting a socket that '
                'takes only 0..7 bytes of the frame header, their own deadline inside that block; "raw": the same stack '
                'with the transport over a bare ScalesSocket taking a frame in several send() calls), ASCII and non-ASCII '
@@ -276,6 +280,10 @@ def _disp_rec(rng, i, cls, mode):
     if rng.random() < 0.6:
       rec['deadline'] = {'in_ms': rng.choice([1, 10, 250, 1000, 10000, 3600000])}     # time to the deadline
     rec['discard'] = rng.random() < 0.4
+  if rng.random() < 0.12:
+    # a call the Thrift serializer rejects (caller mistake): it must leave no trace in the frames that follow
+    rec['bad'] = rng.choice(['kwarg', 'count', 'type'])
+    rec['discard'] = False
   return rec
 
 
@@ -647,6 +655,46 @@ def _stream_raw(rng, cls):
   return sc
 
 
+BAD_KINDS = ['kwarg', 'count', 'type', 'surrogate']
+
+
+def _stream_badcall(rng, n, cls, T=0):
+  c = _stream_call(rng, n, cls, T)
+  return ['badcall', c[1], c[2], c[3], rng.choice(BAD_KINDS)]
+
+
+def _stream_rejected(rng, cls):
+  """Calls the Thrift serializer rejects (caller mistakes) between good calls on the same client stack: they
+  leave no frame and no trace in the frames of the calls that follow."""
+  sc = _stream_base(rng, cls)
+  sc['fam'] = 'rejected'
+  early = rng.random() < 0.3
+  if early:
+    sc['ping_reply_ms'] = 40
+  steps = [['open'], ['at', 5 if early else rng.choice([50, 2000])]]
+  n = 0
+  for _ in range(rng.randint(3, 7)):
+    n += 1
+    if rng.random() < 0.4:
+      steps.append(_stream_badcall(rng, n, cls, rng.choice([0, 0, 40])))
+    else:
+      steps.append(_stream_call(rng, n, cls, rng.choice([0, 0, 40, 300])))
+    k = rng.random()
+    if k < 0.3:
+      steps.append(['run'])
+    elif k < 0.5:
+      steps.append(['adv', rng.choice([1, 10, 60])])
+    elif k < 0.6:
+      steps.append(['reply', rng.randint(0, 2)])
+  n += 1
+  steps.append(_stream_call(rng, n, cls, 0))       # always a good call at the end
+  steps.append(['adv', 100])
+  steps.append(['reply', 0])
+  steps.append(['adv', 300])
+  sc['steps'] = steps
+  return sc
+
+
 def _stream_mixed(rng, cls):
   """Random timeline: calls, back-pressure, replies, the ping instants, faults, close."""
   sc = _stream_base(rng, cls)
@@ -664,6 +712,9 @@ def _stream_mixed(rng, cls):
       for _ in range(rng.choice([2, 3])):
         n += 1
         steps.append(_stream_call(rng, n, cls, T))
+    elif k < 0.13:
+      n += 1
+      steps.append(_stream_badcall(rng, n, cls, rng.choice([0, 40])))
     elif k < 0.3:
       n += 1
       steps.append(_stream_call(rng, n, cls, rng.choice([0, 0, 5, 40, 40, 300, 20000])))
@@ -702,6 +753,8 @@ def _stream_cases(rng, quick):
   rng2 = random.Random(rng.random())
   for i in range(10 * mult):
     out.append(_stream_raw(rng2, 'ascii' if i % 3 == 0 else 'uni'))
+  for i in range(16 * mult):
+    out.append(_stream_rejected(rng2, 'ascii' if i % 3 == 0 else 'uni'))
   for i in range(BIG_N_QUICK if quick else BIG_N_THOROUGH):
     out.append(_stream_bigbody(rng2, 'ascii' if i % 3 == 0 else 'uni', BIG_QUICK if quick or i % 2 else BIG_THOROUGH))
   return out
@@ -775,7 +828,15 @@ def _expected_payload(msg):
 
 def _new_msg(rec):
   from scales.message import MethodCallMessage
-  msg = MethodCallMessage(Iface, rec['method'], (bytes(bytearray(rec['blob'])),), {})
+  args, kwargs = (bytes(bytearray(rec['blob'])),), {}
+  bad = rec.get('bad')
+  if bad == 'kwarg':
+    kwargs = {'bogus': 1}            # unknown keyword argument
+  elif bad == 'count':
+    args = args + (b'extra',)        # too many arguments
+  elif bad == 'type':
+    args = (len(rec['blob']) + 7,)   # an int where bytes belong
+  msg = MethodCallMessage(Iface, rec['method'], args, kwargs)
   msg.properties['__Endpoint'] = None           # as MessageDispatcher does; private, never transported
   for k, v in rec['props']:
     msg.properties[k] = v
@@ -789,6 +850,7 @@ def _run_direct(script, loop):
   from scales.thriftmux.serializer import MessageSerializer
   from scales.thriftmux.sink import SocketTransportSink, ThriftMuxMessageSerializerSink
   transport = SocketTransportSink(_FakeSocket(), 'svc')
+  mser = MessageSerializer(Iface)
   ev = []
   for rec in script['recs']:
     k = rec['k']
@@ -841,15 +903,17 @@ def _run_direct(script, loop):
         else:                                                 # documented meaning: (now, timeout) in ns
           ctx.append(_dl_entry(int(loop.now()) * 10 ** 9, 10 ** 9))
         headers[DEADLINE_KEY] = d
-      e = {'e': 'Disp', 'tag': rec['tag'], 'ctx': ctx, 'payload': _expected_payload(msg), 'frame': [],
-           'raised': 'none'}
+      e = {'e': 'Disp', 'tag': rec['tag'], 'ctx': ctx, 'payload': [] if rec.get('bad') else _expected_payload(msg),
+           'frame': [], 'raised': 'none'}
       try:
         buf = BytesIO()
-        MessageSerializer(Iface).Marshal(msg, buf, headers)
+        mser.Marshal(msg, buf, headers)          # one serializer for all calls of the trace, like a client's
         hdr = transport._BuildHeader(rec['tag'], headers[TransportHeaders.MessageType], buf.tell())
         e['frame'] = list(bytearray(hdr + buf.getvalue()))
       except Exception as ex:
         e['raised'] = type(ex).__name__
+      if rec.get('bad') and e['raised'] != 'none':
+        continue      # rejected, nothing produced: not a record (had it been marshalled, no supplied call matches)
       ev.append(e)
   return ev, {'mode': 'direct'}
 
@@ -939,7 +1003,7 @@ def _run_stack(script, loop):
         forced += 1
     except AttributeError:
       pass
-    expected_payload = _expected_payload(msg)
+    expected_payload = [] if rec.get('bad') else _expected_payload(msg)
     reply = Reply()
     stack = ClientMessageSinkStack()
     stack.Push(reply, None)
@@ -962,6 +1026,8 @@ def _run_stack(script, loop):
       ctx.append(_dl_entry(ts, to))
     tag = msg.properties.get(tag_key)
     frames = sock.written[n0:]
+    if rec.get('bad') and raised != 'none' and not frames:
+      continue        # rejected by the serializer, nothing written: not a record
     if raised == 'none' and (len(frames) != 1 or not isinstance(tag, int)):
       raise RuntimeError('harness: expected one frame per request, got %d (tag %r)' % (len(frames), tag))
     ev.append({'e': 'Disp', 'tag': tag if raised == 'none' else 0, 'ctx': ctx, 'payload': expected_payload,
@@ -1133,7 +1199,7 @@ def _run_stream(script, loop):
 
   ev = []
   st = {'next_ping': None, 'pings_due': 0, 'open_done': False, 'early_calls': 0, 'closed': False,
-        'delivered': 0, 'errors': 0, 'supdisc': 1}
+        'delivered': 0, 'errors': 0, 'supdisc': 1, 'rejected': 0}
   gaps = list(script.get('ping_gaps', []))
 
   class _Rnd(object):            # the ping period (30..40 s) is scripted
@@ -1235,7 +1301,6 @@ def _run_stream(script, loop):
   top_prov.next_provider = below
   top = top_prov.CreateSink({SinkProperties.Endpoint: Endpoint('10.0.0.1', 9090), SinkProperties.Label: 'svc',
                              SinkProperties.ServiceInterface: Hello.Iface})
-  thrift = ThriftSerializer(Hello.Iface)
 
   class Terminal(ClientMessageSink):
     def AsyncProcessRequest(self, *a):
@@ -1257,8 +1322,17 @@ def _run_stream(script, loop):
       pass
     st['open_done'] = True
 
-  def call(arg, props, T):
-    msg = MethodCallMessage(Hello.Iface, 'hi', (arg,), {})
+  def call(arg, props, T, bad=None):
+    args, kwargs = (arg,), {}
+    if bad == 'kwarg':
+      kwargs = {'bogus': arg}                   # misspelt keyword argument
+    elif bad == 'count':
+      args = (arg, arg)                         # too many arguments
+    elif bad == 'type':
+      args = (len(arg) + 1000,)                 # an int where a string belongs
+    elif bad == 'surrogate':
+      args = (arg + u'\ud800',)                 # text that has no UTF-8 form
+    msg = MethodCallMessage(Hello.Iface, 'hi', args, kwargs)
     msg.properties[MessageProperties.Endpoint] = None      # as MessageDispatcher does; private, never transported
     ctx = []
     for k, v in props:
@@ -1273,8 +1347,13 @@ def _run_stream(script, loop):
       msg.properties[Deadline.KEY] = deadline
       dl = (int(now) * 10 ** 9, int(deadline * 1000000000))
     b = BytesIO()
-    thrift.SerializeThriftCall(msg, b)                     # the Thrift call as its own serializer writes it (C14)
-    pending[id(msg)] = {'ctx': ctx, 'payload': list(bytearray(b.getvalue())), 'dl': dl, 'msg': msg}
+    try:     # the Thrift call as its own serializer, a fresh one for every call, writes it (C14)
+      ThriftSerializer(Hello.Iface).SerializeThriftCall(msg, b)
+      pending[id(msg)] = {'ctx': ctx, 'payload': list(bytearray(b.getvalue())), 'dl': dl, 'msg': msg}
+    except Exception:
+      if bad is None:
+        raise
+      st['rejected'] += 1        # not a Thrift payload: nothing is supplied to the transport, no frame is due
     if not st['open_done']:
       st['early_calls'] += 1
     stack = ClientMessageSinkStack()
@@ -1299,6 +1378,8 @@ def _run_stream(script, loop):
         run_to(st['next_ping'] + op[1] / 1000.0)
     elif k == 'call':                # [.., arg, props, T] or [.., arg prefix, props, T, padding length]
       call(op[1] + (_pad(op[4], len(op[1])) if len(op) > 4 else ''), op[2], op[3])
+    elif k == 'badcall':             # [.., arg, props, T, kind]: a call the Thrift serializer rejects
+      call(op[1], op[2], op[3], bad=op[4])
     elif k == 'sendmax':
       if conn() is not None:
         conn().send_max = op[1]
@@ -1341,7 +1422,7 @@ def _run_stream(script, loop):
   if c is not None and not c.closed and c._swaiter is not None:
     raise RuntimeError('harness: a write is still blocked at the end of the scenario')
   ev.append({'e': 'End'})
-  meta = {'mode': 'stream', 'supdisc': st['supdisc'], 'discards_supplied': len(timed_out),
+  meta = {'mode': 'stream', 'rejected_calls': st['rejected'], 'supdisc': st['supdisc'], 'discards_supplied': len(timed_out),
           'early_calls': st['early_calls'], 'pings_due': st['pings_due'],
           'closed': st['closed'], 'delivered': st['delivered'], 'call_errors': st['errors'],
           'partial_sends': c.partial_sends if c is not None else 0,
@@ -1424,7 +1505,7 @@ def extra_coverage(prop, tier, traces):
         tags.add(e['tag'])
   st = {'traces': 0, 'by_family': {}, 'dispatches_supplied': 0, 'discards_supplied': 0,
         'with_2_or_more_discards_supplied': 0, 'with_2_or_more_tdiscarded': 0, 'discards_observed': 0,
-        'raw_scales_socket': 0, 'with_body_of_16384_or_more': 0, 'largest_dispatch_supplied': 0, 'chunks': 0, 'bytes': 0, 'with_split_writes': 0,
+        'rejected_calls': 0, 'raw_scales_socket': 0, 'with_body_of_16384_or_more': 0, 'largest_dispatch_supplied': 0, 'chunks': 0, 'bytes': 0, 'with_split_writes': 0,
         'with_calls_before_open': 0, 'with_tdiscarded': 0, 'with_periodic_ping': 0, 'connection_closed': 0,
         'closed_in_mid_write': 0}
   for t in traces:
@@ -1437,6 +1518,7 @@ def extra_coverage(prop, tier, traces):
     st['dispatches_supplied'] += sum(1 for e in t['ev'] if e['e'] == 'Sup' and e.get('k') == 'dispatch')
     nd = sum(1 for e in t['ev'] if e['e'] == 'Sup' and e.get('k') == 'discard')
     st['discards_supplied'] += nd
+    st['rejected_calls'] += m.get('rejected_calls', 0)
     st['raw_scales_socket'] += 1 if t.get('script', {}).get('raw') else 0
     big = max([len(e['payload']) for e in t['ev'] if e['e'] == 'Sup' and e.get('k') == 'dispatch'] + [0])
     st['with_body_of_16384_or_more'] += 1 if big >= 16384 else 0       # Thrift call alone >= 16 KiB
